@@ -89,6 +89,10 @@ def main():
                     if k not in seen:
                         seen.add(k)
                         uniq.append(r)
+                hit = {r["check"] for r in uniq if r["exit"] == 1}
+                for r in uniq:
+                    if r["exit"] == 0 and r["check"] in hit:
+                        r["tier"] = "quick, plain pass only (VERIF_NO_RACE_PASS=1): the race pass of the same check reports it"
                 meta["checks_run"] = uniq
                 caught = [r for r in uniq if r["exit"] == 1]
                 if sid in notes:
@@ -112,7 +116,8 @@ def main():
         f.write("| id | breaks | change | status | caught by (class) |\n|---|---|---|---|---|\n")
         for m in rows:
             caught = ", ".join(f"{r['check']} ({r['class']})" for r in m["checks_run"] if r["exit"] == 1) or "-"
-            missed = ", ".join(r["check"] for r in m["checks_run"] if r["exit"] == 0)
+            hitc = {r["check"] for r in m["checks_run"] if r["exit"] == 1}
+            missed = ", ".join(r["check"] for r in m["checks_run"] if r["exit"] == 0 and r["check"] not in hitc)
             if missed:
                 caught += f"; passes {missed}"
             summ = (m.get("summary") or "").replace("|", "/").replace("\n", " ")
